@@ -199,6 +199,12 @@ NoFalseEof == pc = "fill" /\ Remaining > 0 => Free > 0
 (* C18: the end of the stream is reported only when the reader reported it  *)
 EofOnlyWhenReaderSaysSo == pc = "done" => eofseen /\ Remaining = 0
 
+(* reachability witnesses (non-vacuity), see `bin/check selftest` *)
+Reach_RollWithMatchAcross ==   \* a match chunk whose bytes were partly read before a roll
+    last.kind = "m" /\ rpos > Len(buf) /\ last.mat[2] < rpos - Len(buf) + cfg.min
+Reach_PreRollChunk == pc = "top" /\ last.kind = "n" /\ bpos >= Len(buf) /\ rep = Len(buf) - cfg.min /\ rep > 0
+Reach_FailedAfterOutput == pc = "failed" /\ outpos > 0 /\ nm > 0
+
 (* C18: whatever happens, what was produced so far is a correct prefix      *)
 (* (ChunkConcat and MatchPrefix are invariants of every reachable state,    *)
 (* including the failed ones)                                               *)
